@@ -1,5 +1,6 @@
 //! C01 — parsing is total.
 use crate::pcorr;
+use crate::pcorr::bv;
 use crate::spec::*;
 use crate::util::*;
 
@@ -50,6 +51,69 @@ pub fn run(o: &Opts) -> Report {
                 let (canon, _, _) = real_parse(&c, &argv);
                 if canon.starts_with("PANIC") { rep.oracle_fail("panic:accepted-self-nested-group", &parse_request(&c, &argv), &canon); }
                 rep.count("self-nested-group-accepted-and-parsed");
+            }
+        }
+    }
+    {
+        // the configuration gate. The property quantifies over the definitions the configuration checks ACCEPT, so a
+        // weakened check shows up as an accepted definition that then panics. One dangling reference (an id that names
+        // no arg and no group) is planted at a random site of a valid definition; the unchanged checks reject most sites
+        // (counted); whatever they accept must still parse to a result for every argv, and its errors must render.
+        let mut rng = Rng::new(o.seed ^ 0xDA61);
+        let cfg = GenCfg { relations: true, defaults: true, subs: false, exotic: false, groups: true, flagsubs: false, settings: false, globals: false };
+        let sites = ["arg.requires", "arg.requires_if", "arg.conflicts_with", "arg.overrides_with", "arg.required_if_eq", "arg.required_if_eq_all",
+            "arg.required_unless", "arg.required_unless_all", "arg.default_value_if", "group.args", "group.requires", "group.conflicts", "arg.group"];
+        let n = if o.thorough() { 6000 } else { 900 };
+        let mut done = 0;
+        let mut tried = 0;
+        while done < n && tried < n * 20 {
+            tried += 1;
+            let mut c = gen_cmd(&mut rng, &cfg, 0, "prog");
+            if c.args.is_empty() { continue; }
+            // a required option makes `missing required argument` errors (and their usage synthesis) frequent
+            if !c.args.iter().any(|a| a.id == "rq") { c.args.push(ArgS { id: "rq".into(), long: Some("rq".into()), required: true, ..Default::default() }); }
+            if c.groups.is_empty() { let m = c.args[rng.below(c.args.len())].id.clone(); c.groups.push(GroupS { id: "gq".into(), args: vec![m], ..Default::default() }); }
+            if !real_valid(&c) { continue; }
+            let site = sites[rng.below(sites.len())];
+            let ghost = "ghost".to_string();
+            let ai = rng.below(c.args.len());
+            let gi = rng.below(c.groups.len());
+            match site {
+                "arg.requires" => c.args[ai].requires.push((PredS::Present, ghost)),
+                "arg.requires_if" => c.args[ai].requires.push((PredS::Equals("v".into()), ghost)),
+                "arg.conflicts_with" => c.args[ai].blacklist.push(ghost),
+                "arg.overrides_with" => c.args[ai].overrides.push(ghost),
+                "arg.required_if_eq" => { c.args[ai].required = false; c.args[ai].r_ifs.push((ghost, "v".into())) }
+                "arg.required_if_eq_all" => { c.args[ai].required = false; c.args[ai].r_ifs_all.push((ghost, "v".into())) }
+                "arg.required_unless" => { c.args[ai].required = false; c.args[ai].r_unless.push(ghost) }
+                "arg.required_unless_all" => { c.args[ai].required = false; c.args[ai].r_unless_all.push(ghost) }
+                "arg.default_value_if" => c.args[ai].default_ifs.push((ghost, PredS::Present, Some("d".into()))),
+                "group.args" => c.groups[gi].args.push(ghost),
+                "group.requires" => c.groups[gi].requires.push(ghost),
+                "group.conflicts" => c.groups[gi].conflicts.push(ghost),
+                _ => c.args[ai].groups.push(ghost),
+            }
+            done += 1;
+            if !real_valid(&c) { rep.count(&format!("dangling-reference-rejected:{site}")); continue; }
+            rep.count(&format!("dangling-reference-accepted:{site}"));
+            let mut argvs: Vec<Vec<Vec<u8>>> = (0..6).map(|_| gen_argv(&mut rng, &c, 6)).collect();
+            argvs.push(bv(&["prog"]));
+            for a in &c.args {
+                if let Some(l) = &a.long {
+                    let flag = matches!(a.action, Some("setTrue") | Some("setFalse") | Some("count"));
+                    argvs.push(if flag { bv(&["prog", &format!("--{l}")]) } else { bv(&["prog", &format!("--{l}=v")]) });
+                    argvs.push(if flag { bv(&["prog", &format!("--{l}"), "--rq=v"]) } else { bv(&["prog", &format!("--{l}=v"), "--rq=v"]) });
+                }
+            }
+            for argv in argvs {
+                let (canon, _, e) = real_parse(&c, &argv);
+                let req = parse_request(&c, &argv);
+                if canon.starts_with("PANIC") { rep.oracle_fail(&format!("panic:accepted-definition-with-dangling-reference:{site}"), &req, &canon); }
+                if let Some(e) = e {
+                    let r = std::panic::catch_unwind(std::panic::AssertUnwindSafe(|| e.render().to_string()));
+                    if r.is_err() { rep.oracle_fail(&format!("error-render-panics:accepted-definition-with-dangling-reference:{site}"), &req, &canon); }
+                }
+                rep.count("dangling-reference-accepted-and-parsed");
             }
         }
     }
